@@ -573,10 +573,27 @@ impl Scenario for Listeners {
         let norm = |x: &String| x.replace('\\', "");
         let mut ball: Vec<String> = b1.iter().map(norm).collect();
         ball.extend(b2.iter().map(norm));
-        // notices that arrived before any listener existed are discarded: accept any suffix
-        let is_suffix = blocked.len() >= ball.len() && blocked[blocked.len() - ball.len()..] == ball[..];
-        if !is_suffix {
-            v.push(("listeners:blocked".into(), format!("blocked listeners got {:?} ++ {:?}; the server sent {:?}", b1, b2, blocked)));
+        // exact reference from the I/O thread's own log: a notice goes to the listener whose
+        // registration the I/O thread had received last; both registrations must arrive
+        let mut regs = 0usize;
+        let mut want_b: Vec<Vec<String>> = vec![vec![], vec![], vec![]];
+        for e in &o.io_events {
+            match e {
+                IoEvent::Recv { kind: amiquip::verif::ChanKind::Blocked, .. } => regs += 1,
+                IoEvent::Frame(AMQPFrame::Method(0, AMQPClass::Connection(pconnection::AMQPMethod::Blocked(b)))) => want_b[regs.min(2)].push(format!("Blocked({:?})", b.reason)),
+                IoEvent::Frame(AMQPFrame::Method(0, AMQPClass::Connection(pconnection::AMQPMethod::Unblocked(_)))) => want_b[regs.min(2)].push("Unblocked".to_string()),
+                _ => {}
+            }
+        }
+        let _ = (ball, &blocked);
+        if regs != 2 {
+            v.push(("listeners:blocked-registration-lost".into(), format!("listen_for_connection_blocked was called twice but the I/O thread received {} registration(s)", regs)));
+        } else {
+            let g1: Vec<String> = b1.iter().map(norm).collect();
+            let g2: Vec<String> = b2.iter().map(norm).collect();
+            if g1 != want_b[1] || g2 != want_b[2] {
+                v.push(("listeners:blocked".into(), format!("blocked listeners got {:?} and {:?}; expected {:?} and {:?} (server sent {:?})", g1, g2, want_b[1], want_b[2], blocked)));
+            }
         }
         if main.last().map(|s| s.as_str()) != Some("close -> Ok") {
             v.push(("listeners:close".into(), format!("{:?}", main)));
